@@ -254,3 +254,22 @@ def random_programs(rng, n, maxops=4):
                 prog.append(rand_op(rng))
         out.append(prog)
     return out
+
+
+LEAD = ["", " ", "\t", "\n", "\r", "\x00", "\x1f", "\x0b", "\x0c", "\x1c", "\u00a0", "\x7f", "\x20\x09", "\x09\x20"]
+
+
+def leading_runs(bodies, maxrun=2):
+    """every leading run of up to maxrun characters from the C0/space set (and a few
+    non-members) before each body, plus the same characters inside and after it"""
+    import itertools
+    singles = [" ", "\t", "\n", "\r", "\x00", "\x01", "\x1f", "\x0b", "\x0c", "\x7f", "\u00a0", "\x85", "!"]
+    out = []
+    for b in bodies:
+        for n in range(0, maxrun + 1):
+            for t in itertools.product(singles, repeat=n):
+                out.append("".join(t) + b)
+        for c in singles:
+            out.append(b[: len(b) // 2] + c + b[len(b) // 2:])
+            out.append(b + c)
+    return out
